@@ -262,9 +262,15 @@ def c04(c):
         runs += sliced(nm, 2 if not c.thorough else 4)
         if n in ("ilp32", "ilp32f"):
             runs.append(dict(unit=nm, label=nm + "[4GiB]", args=["big"], slice=7, nslices=8))
+    # host-ABI part: the noop backend's pointer representation is a pointer type, which selects other branches of the conversion code
+    units.append(dict(name="c04_hostptr", srcs=[D + "c04_hostptr.cpp"], build="asan0", defs=EXC, libs=["-ldl"]))
+    runs.append(dict(unit="c04_hostptr", label="c04_hostptr[noop]"))
     return dict(units=units, runs=runs, evidence=dict(
         level="exploration",
-        rule="case = (live-instance configuration, instance, pointer-carrying position, offset). 1..8 model-backend instances are created and "
+        rule="Host-ABI part (noop backend, representation = void*): cells, arrays and multi-dimensional arrays ([1], [3], [2][3], [3][2], [2][2][2]) of data and "
+             "function pointers stored whole from a tainted, loaded whole, copied sandbox-memory to sandbox-memory and stored element-wise at PRNG offsets of a "
+             "sandbox buffer; oracle: identity/null preserved and exactly the destination bytes change (shadow copy). Model part: "
+             "case = (live-instance configuration, instance, pointer-carrying position, offset). 1..8 model-backend instances are created and "
              "destroyed in PRNG order (so the registry order varies); for every live instance, boundary and random offsets go through 18 "
              "to-application positions (cell, array element, whole array, struct field, whole struct, nested struct, const char*, invoke result, "
              "callback argument, pointer-to-pointer, copy_and_verify_address, copy_and_verify of a struct pointer, by-value struct result, "
